@@ -139,16 +139,20 @@ claim(
     "forwarded count, nothing is lost, duplicated or altered and parked segments stay parked; (queue to reader) for concrete schedules "
     "of read / peek calls with buffer sizes 1-4 over a queue DATA(2) DATA(1) [FIN] with symbolic byte contents, every call hands out "
     "exactly the next bytes of the stream unaltered, a peek consumes nothing, each data segment returns exactly one flow-control credit "
-    "(credits + queued data segments == capacity at every point) and end-of-file is reported only after every byte and the FIN. A "
-    "derived progress obligation (a FIN must not be left parked at the head of the reorder buffer when nothing else will arrive) is "
+    "(credits + queued data segments == capacity at every point) and end-of-file is reported only after every byte and the FIN; "
+    "(writer) the REAL WriteHalf::poll_write_priv inside World::enter on a real two-host World: every accepted write puts exactly one "
+    "data segment on the link, in write order, with growing sequence numbers and the written bytes unaltered; a write without credit "
+    "parks and puts nothing on the link (blocked, never silently discarded); a credit returned by the reader lets the next write "
+    "through. A derived progress obligation (a FIN must not be left parked at the head of the reorder buffer when nothing else will arrive) is "
     "confirmed by an end-to-end witness before being reported (F-C02-1, repaired).",
-    "The write half (poll_write_priv acquiring credits under World) and delivery through World/Topology are not executed.",
+    "Delivery of the in-flight segments into the destination host (Topology::deliver_messages, Sim::step) is not executed.",
     ["host::StreamSocket::new", "host::StreamSocket::buffer", "net::tcp::stream::ReadHalf::{poll_read_priv, poll_peek, put_slice}",
-     "net::tcp::stream::FlowControl::{new, try_acquire, release}"],
+     "net::tcp::stream::FlowControl::{new, try_acquire, release}", "net::tcp::stream::WriteHalf::{poll_write_priv, try_write, seq, send}",
+     "world::World::{new, register, enter, current, send_message}", "top::Topology::enqueue_message", "top::Link::enqueue_message"],
     "Bounds: channel capacity 1-3, parked set a subset of {r+2, r+3}, arriving sequence r+1..r+3, r symbolic u64; reader: 3-4 calls "
-    "per schedule, 3 data bytes in two segments; unwind 6-8.",
-    "write half and World delivery, split halves dropped separately, holds and partitions (C03/C08)",
-    CORE_ASSUME,
+    "per schedule, 3 data bytes in two segments; writer: capacity 1, 2-3 writes of 2 bytes, fixed 5 ms latency; unwind 6-8.",
+    "delivery into the destination host, split halves dropped separately (C12), holds and partitions (C03/C08)",
+    CORE_ASSUME + ["scoped-tls is replaced by the model of /verif/models/scoped-tls (plain static under cfg(kani))"],
 )
 
 claim(
@@ -162,8 +166,9 @@ claim(
     "untouched, and each send yields at most one receive; (3) UdpSocket::try_recv_from (also after `readable` parked the datagram) "
     "returns min(len, buffer) bytes, exactly the datagram's prefix, writes nothing beyond it, consumes the datagram once and leaves "
     "the next one whole.",
-    "Sender-side routing (UdpSocket::send: loopback, broadcast fan-out, multicast membership) needs World/Topology and is not "
-    "executed; multicast membership tables with symbolic group/member keys exceeded the 8 GB cap.",
+    "Sender-side routing (UdpSocket::send: loopback, broadcast fan-out, multicast membership) was tried on a real three-host World "
+    "(unicast, broadcast with and without the option, multicast to members): no verdict in 25 minutes for any of the four instances; "
+    "multicast membership tables with symbolic group/member keys exceeded the 8 GB cap. Both are outside this check.",
     ["host::matches", "host::Udp::{new, bind, connect, receive_from_network}", "net::udp::UdpSocket::{new, try_recv_from}",
      "net::udp::Rx::try_recv_from"],
     "Bounds: one bound socket (3 bind-address shapes), capacity 1-2 with 0-1 queued datagrams, 2-3 byte payloads, receive buffers of "
